@@ -297,6 +297,73 @@ def dns_walker_sites(db, rep):
 
 
 
+class LocalReportHooks(QHooks):
+    """qmail-lspawn report(): the output of qmail-local is an array of `n` byte cells"""
+    def __init__(self, n):
+        self.n = n
+        self.bad = None
+        self.puts = 0
+
+    def tracked_global(self, path):
+        return True
+
+    def precise_arith(self, path):
+        return True
+
+    def materialize(self, E, path):
+        if path.startswith('RL['):
+            k = int(path[3:-1])
+            if k >= self.n:
+                if self.bad is None:
+                    self.bad = ('byte %d of a %d-byte output is read' % (k, self.n), E.trace.list())
+                return fs(0)
+            return fs(0, 120)
+        return TOP
+
+    def _put(self, E, x, args):
+        p = args[1]
+        p = next(iter(p)) if p is not TOP and len(p) == 1 else None
+        if isinstance(p, tuple) and p[0] == '&' and p[1].startswith('RL['):
+            self.puts += 1
+            k0 = int(p[1][3:-1])
+            cnt = args[2] if len(args) > 2 else None
+            if cnt is None:
+                if self.bad is None:
+                    self.bad = ('the output is written as a C string from byte %d: it need not contain a NUL' % k0, E.trace.list())
+            elif cnt is TOP or not all(isinstance(c, int) for c in cnt) or min(cnt) < 0 or k0 + max(cnt) > self.n:
+                if self.bad is None:
+                    self.bad = ('%s bytes are written from byte %d of a %d-byte output' % ('an undetermined number of' if cnt is TOP else sorted(cnt), k0, self.n), E.trace.list())
+        return [Outcome(ret=TOP)]
+
+    prim_substdio_put = prim_substdio_puts = prim_substdio_bput = prim_substdio_bputs = _put
+
+
+def report_read_sites(db, rep):
+    """the two spawners' report(): only the `len` bytes of the delivery program's output are read"""
+    from rules import C09
+    out = {}
+    H5, _ = C09.report_explore(db, rep)
+    v = H5.sites['reads-only-the-len-bytes-of-the-output']
+    out['rspawn-report:reads-only-the-len-bytes-of-the-output'] = v
+    pl = db.program('qmail-lspawn')
+    fn = pl.fn('report', 'qmail-lspawn.c')
+    bad = None
+    puts = 0
+    for w in (0, 100 << 8, 111 << 8):
+        for n in (0, 1, 2, 3, 4):
+            H = LocalReportHooks(n)
+            e = Engine(db, pl, H, max_states=100000)
+            e.run(fn, {'report::P:wstat': fs(w), 'report::P:len': fs(n), 'report::P:s': fs(('&', 'RL[0]'))})
+            rep.count_states(e.states, e.transitions)
+            puts += H.puts
+            if H.bad and bad is None:
+                bad = ('exit code %d, %d bytes of output: %s' % (w >> 8, n, H.bad[0]), H.bad[1])
+    if not puts and bad is None:
+        raise AnalysisBroken('qmail-lspawn report(): the output is never written')
+    out['lspawn-report:reads-only-the-len-bytes-of-the-output'] = (bad is None, 'qmail-lspawn.c:report', bad[0] if bad else '%d writes of the output explored, each inside its len bytes' % puts, bad[1] if bad else [])
+    return out
+
+
 def run(ctx):
     db, rep = ctx.db, ctx.report
     # ---------------------------------------------------------------- 1. reserve contracts (linear symbolic)
@@ -477,6 +544,11 @@ def run(ctx):
     for inst, v in sorted(dns_walker_sites(db, rep).items()):
         r8.check(v[0], inst, v[1], v[2], v[3])
     r8.expect_min(3)
+
+    r9 = rep.rule('C20.9-delivery-reports', 'R-BOUND', 'qmail-rspawn and qmail-lspawn report(): over every exit status class and every output of 0..5 (0..4) bytes, only the len bytes of the delivery program\'s output are read, whether or not it ends in NUL')
+    for inst, v in sorted(report_read_sites(db, rep).items()):
+        r9.check(v[0], inst, v[1], v[2], v[3])
+    r9.expect_min(2)
 
     r7 = rep.rule('C20.7-output-buffering', 'R-BOUND', 'substdio_put / substdio_bput on a 16-byte buffer with 0, 3 or 16 bytes buffered and 0..20000 bytes put: every store stays inside the buffer, and bytes written + bytes buffered = bytes handed in')
     from rules import libtab
